@@ -1,10 +1,12 @@
 package main
 
 import (
+	"bytes"
 	"encoding/json"
 	"fmt"
 	"os"
 	"sort"
+	"strconv"
 	"strings"
 	"time"
 
@@ -38,6 +40,33 @@ func renderRun(key string, data *DataEnv, fail, short int) VRun {
 		obs.Out = append([]byte(nil), fw.buf.Bytes()...)
 	}
 	return VRun{Fail: fail, Short: short, Obs: obs, Writes: fw.n}
+}
+
+// warmRun renders twice on one context with a Reset in between and returns the second observation.
+func warmRun(key string, data *DataEnv) Obs {
+	var second bytes.Buffer
+	obs := guarded(10*time.Second, func() ([]byte, error) {
+		ctx := dyntpl.NewCtx()
+		data.Apply(ctx)
+		var first bytes.Buffer
+		_ = dyntpl.Write(&first, key, ctx)
+		ctx.Reset()
+		data.Apply(ctx)
+		err := dyntpl.Write(&second, key, ctx)
+		return nil, err
+	})
+	harnessLog.take()
+	if !obs.Hang {
+		obs.Out = append([]byte(nil), second.Bytes()...)
+	}
+	return obs
+}
+
+func firstLine(s string) string {
+	if i := strings.IndexByte(s, '\n'); i >= 0 {
+		return s[:i]
+	}
+	return s
 }
 
 func parseDump(src []byte, keepFmt bool) (string, []dyntpl.VerifNode, Obs) {
@@ -88,7 +117,40 @@ func genInterpCase(id int, rng *RNG, prof *Profile) *interpCase {
 	vc.Src = printNodes(ic.ast)
 	vc.Budget = g.budget + 2
 	ic.vc = vc
+	// every literal operand that reads as a float goes to the float literal table: a variable
+	// assigned by {% ctx %} may carry a float whatever the generator assumed about its kind
+	addCondFlits(ic.ast, g.flits)
+	for _, sub := range ic.incs {
+		addCondFlits(sub, g.flits)
+	}
 	return ic
+}
+
+func addCondFlits(ns []*Ast, flits map[string]float64) {
+	one := func(c *ACond) {
+		if c == nil {
+			return
+		}
+		for _, t := range []struct {
+			lit  bool
+			text string
+		}{{c.LLit, c.L}, {c.RLit, c.R}} {
+			if !t.lit || t.text == "" {
+				continue
+			}
+			if f, err := strconv.ParseFloat(t.text, 64); err == nil {
+				if _, ok := flits[t.text]; !ok {
+					flits[t.text] = f
+				}
+			}
+		}
+	}
+	walkAst(ns, func(a *Ast) {
+		one(a.Cond)
+		for i := range a.Cases {
+			one(&a.Cases[i].Cond)
+		}
+	})
 }
 
 func runInterp(o *Options, prop string, prof *Profile, quickN, thoroughN int, corr string) *Result {
@@ -106,15 +168,38 @@ func runInterp(o *Options, prop string, prof *Profile, quickN, thoroughN int, co
 	if o.Replay != "" {
 		n = 0
 	}
+	var queue []*interpCase
 	for i := 0; i < n+len(corpus); i++ {
 		var ic *interpCase
 		if i < len(corpus) {
 			ic = corpus[i]
 			ic.vc.ID = i
 			res.Hist("stream:corpus")
-		} else {
-			ic = genInterpCase(i, rng.Fork(), prof)
+			queue = append(queue, ic)
+			continue
 		}
+		r := rng.Fork()
+		ic = genInterpCase(i, r, prof)
+		queue = append(queue, ic)
+		if prof.KeepFmt && r.Chance(25) {
+			// the same source under the other keep-format setting, parsed right after the first
+			trimTail(ic.ast)
+			ic.vc.Src = printNodes(ic.ast)
+			tvc := *ic.vc
+			tvc.ID = n + len(corpus) + i
+			tvc.KeepFmt = !ic.vc.KeepFmt
+			tvc.Runs = nil
+			tvc.Meta = map[string]any{}
+			for k, v := range ic.vc.Meta {
+				tvc.Meta[k] = v
+			}
+			twin := *ic
+			twin.vc = &tvc
+			queue = append(queue, &twin)
+			res.Hist("stream:keepfmt-twin")
+		}
+	}
+	for _, ic := range queue {
 		vc := ic.vc
 		key, dump, po := parseDump([]byte(vc.Src), vc.KeepFmt)
 		if po.ErrClass() != "OK" {
@@ -129,6 +214,20 @@ func runInterp(o *Options, prop string, prof *Profile, quickN, thoroughN int, co
 		}
 		vc.Tree = dump
 		vc.Runs = append(vc.Runs, renderRun(key, vc.Data, 0, 0))
+		// contexts are pooled in production: the same render on a context that already rendered this
+		// case and was reset must agree with the render on a new one (judged by the model and the
+		// reference semantics below)
+		if w := warmRun(key, vc.Data); !vc.Runs[0].Obs.Hang && !w.Hang {
+			f := vc.Runs[0].Obs
+			res.Hist("warm:run")
+			if string(w.Out) != string(f.Out) || w.Err != f.Err || (w.Panic != "") != (f.Panic != "") {
+				res.OracleFails++
+				res.AddViolation(&Violation{Kind: "failing-input", Class: "warm:differs-from-new",
+					What: fmt.Sprintf("template %q on a context that rendered it once before and was Reset gives %q err=%q %s; on a new context %q err=%q", vc.Src, w.Out, w.Err, firstLine(w.Panic), f.Out, f.Err),
+					Replay: map[string]any{"template": vc.Src, "keep_fmt": vc.KeepFmt, "data_slots": vc.Data.Slots(), "includes": vc.Meta, "how": "NewCtx; set data; render; ctx.Reset(); set data; render",
+						"observed": string(w.Out), "observed_err": w.Err, "observed_panic": w.Panic, "new_context": string(f.Out), "new_context_err": f.Err}})
+			}
+		}
 		if prof.Faults {
 			w := vc.Runs[0].Writes
 			for k := 1; k <= w && k <= 40; k++ {
